@@ -2,7 +2,6 @@ package props
 
 import (
 	"bytes"
-	"io"
 	"fmt"
 	"image"
 	"reflect"
@@ -178,10 +177,13 @@ func checkC17(c *c17Case, o *core.Obs) error {
 		} else {
 			errPrefixes++
 		}
-		// the same prefix through a reader without Len() (files, sockets, image.Decode's wrapper)
-		img2, err2 := webp.Decode(io.MultiReader(bytes.NewReader(pre)))
+		// the same prefix through a reader without Len() that delivers the bytes in another legal way
+		// (plain, one byte per Read, half reads, data together with io.EOF, small buffers): the kind
+		// rotates with the prefix length
+		rk := readerKinds[n%len(readerKinds)]
+		img2, err2 := webp.Decode(rk.New(pre))
 		if (err2 == nil) != (err == nil) {
-			return fmt.Errorf("prefix of %d/%d bytes: Decode from a bytes.Reader err=%v, from a plain io.Reader err=%v (layout %s)", n, len(full), err, err2, layout)
+			return fmt.Errorf("prefix of %d/%d bytes: Decode from a bytes.Reader err=%v, from a %s reader err=%v (layout %s)", n, len(full), err, rk.Name, err2, layout)
 		}
 		if err2 == nil {
 			v := viewOf(img2, nil)
@@ -189,12 +191,12 @@ func checkC17(c *c17Case, o *core.Obs) error {
 				return fmt.Errorf("prefix of %d/%d bytes read from a plain io.Reader decodes without error to a different picture (layout %s)", n, len(full), layout)
 			}
 		}
-		if cfg, err := webp.DecodeConfig(io.MultiReader(bytes.NewReader(pre))); err == nil {
+		if cfg, err := webp.DecodeConfig(rk.New(pre)); err == nil {
 			if cfg.Width != fCfg.Width || cfg.Height != fCfg.Height || cfg.ColorModel != fCfg.ColorModel {
 				return fmt.Errorf("DecodeConfig (plain io.Reader) on a %d/%d-byte prefix reports %dx%d, complete file %dx%d (layout %s)", n, len(full), cfg.Width, cfg.Height, fCfg.Width, fCfg.Height, layout)
 			}
 		}
-		if ft, err := webp.GetFeatures(io.MultiReader(bytes.NewReader(pre))); err == nil {
+		if ft, err := webp.GetFeatures(rk.New(pre)); err == nil {
 			if !reflect.DeepEqual(*ft, *fFeat) {
 				return fmt.Errorf("GetFeatures (plain io.Reader) on a %d/%d-byte prefix reports %+v, complete file %+v (layout %s)", n, len(full), *ft, *fFeat, layout)
 			}
